@@ -1,3 +1,260 @@
-/* drv_enc_pc.h - pairing-based part of drv_enc.c (C06) */
+/*
+ * drv_enc_pc.h - pairing-based and set-intersection part of drv_enc.c (C06).
+ * These protocols are observed at the level of their INPUT/OUTPUT contract: messages in and out,
+ * both parties' keys, the set that comes out, the verdict on an honest and on a tampered helper
+ * response ("same" = the delegated result equals pc_map(P, Q) computed by the library itself - the
+ * pairing's own correctness is C04).
+ *
+ *   sokaka <seed> <idA> <idB> <klen>
+ *   ibe    <seed> <id> <msghex> <cap>
+ *   bgn    <seed> <m1> <m2>
+ *   pdel   <pdpub|pdprv|lvpub|lvprv> <seed> <tamper index or -1> <kind g|u|z>
+ *   psi    <rsa|shi|pb> <seed> <x1,x2,..|-> <y1,y2,..|->       (decimal / hex elements, "-" = empty set)
+ *   pct    <seed>                                               (mpc pairing triples)
+ */
+#if defined(WITH_PC) && defined(WITH_CP)
+#define PSI_MAX 8
+static bn_t PA[PSI_MAX + 1], PXs[PSI_MAX + 1], PYs[PSI_MAX + 1], PZ[PSI_MAX * PSI_MAX + 1], PV[PSI_MAX + 1], PW[PSI_MAX + 1], PG, PN, PQ, PR;
+static g1_t PU[PSI_MAX + 1], PSS;
+static g2_t PD[PSI_MAX + 2], PS[PSI_MAX + 2];
+static gt_t PT[PSI_MAX + 1];
+static crt_t PCRT;
+static int pc_ok;
+
+static void pc_setup(void) {
+	int i;
+	pc_ok = (pc_param_set_any() == RLC_OK);
+	err_get_code();
+	for (i = 0; i <= PSI_MAX; i++) {
+		bn_null(PA[i]); bn_null(PXs[i]); bn_null(PYs[i]); bn_null(PV[i]); bn_null(PW[i]);
+		bn_new(PA[i]); bn_new(PXs[i]); bn_new(PYs[i]); bn_new(PV[i]); bn_new(PW[i]);
+		g1_null(PU[i]); g1_new(PU[i]); gt_null(PT[i]); gt_new(PT[i]);
+	}
+	for (i = 0; i <= PSI_MAX * PSI_MAX; i++) { bn_null(PZ[i]); bn_new(PZ[i]); }
+	for (i = 0; i <= PSI_MAX + 1; i++) { g2_null(PD[i]); g2_new(PD[i]); g2_null(PS[i]); g2_new(PS[i]); }
+	bn_null(PG); bn_null(PN); bn_null(PQ); bn_null(PR); bn_new(PG); bn_new(PN); bn_new(PQ); bn_new(PR);
+	g1_null(PSS); g1_new(PSS); crt_null(PCRT); crt_new(PCRT);
+}
+
+static void do_sokaka(void) {
+	sokaka_t ka, kb; bn_t s; int e[5], r[5], klen = atoi(vh_tok[4]);
+	static uint8_t k1[MAXB], k2[MAXB];
+	sokaka_null(ka); sokaka_null(kb); bn_null(s); sokaka_new(ka); sokaka_new(kb); bn_new(s);
+	reseed(vh_tok[1]);
+	memset(k1, FILL, sizeof(k1)); memset(k2, FILL, sizeof(k2));
+	VH_TRY(e[0], r[0] = cp_sokaka_gen(s));
+	VH_TRY(e[1], r[1] = cp_sokaka_gen_prv(ka, vh_tok[2], s));
+	VH_TRY(e[2], r[2] = cp_sokaka_gen_prv(kb, vh_tok[3], s));
+	VH_TRY(e[3], r[3] = cp_sokaka_key(k1, klen, vh_tok[2], ka, vh_tok[3]));
+	VH_TRY(e[4], r[4] = cp_sokaka_key(k2, klen, vh_tok[3], kb, vh_tok[2]));
+	vh_begin("sokaka");
+	vh_str("idA", vh_tok[2]); vh_str("idB", vh_tok[3]); vh_int("klen", klen);
+	vh_bytes("kA", k1, klen); vh_bytes("kB", k2, klen); vh_int("over", k1[klen] != FILL || k2[klen] != FILL);
+	vh_int("ret", r[0] | r[1] | r[2] | r[3] | r[4]); vh_int("err", e[0] | e[1] | e[2] | e[3] | e[4]); vh_int("code", vh_code());
+	vh_end();
+	sokaka_free(ka); sokaka_free(kb); bn_free(s);
+}
+
+typedef struct { const uint8_t *in; size_t len; const char *id; g1_st *pub; g2_st *prv; } ibe_ctx;
+static void call_ibe_enc(res_t *r, void *c) { ibe_ctx *b = c; VH_TRY(r->err, r->ret = cp_ibe_enc(r->out, &r->olen, b->in, b->len, b->id, b->pub)); }
+static void call_ibe_dec(res_t *r, void *c) { ibe_ctx *b = c; VH_TRY(r->err, r->ret = cp_ibe_dec(r->out, &r->olen, b->in, b->len, b->prv)); }
+static void do_ibe(void) {
+	bn_t s; g1_t pub; g2_t prv; int e0, r0 = -1, e1, r1 = -1; size_t cap = (size_t)atol(vh_tok[4]), hdr = 2 * RLC_FP_BYTES + 1;
+	res_t r; ibe_ctx b;
+	bn_null(s); g1_null(pub); g2_null(prv); bn_new(s); g1_new(pub); g2_new(prv);
+	reseed(vh_tok[1]);
+	VH_TRY(e0, r0 = cp_ibe_gen(s, pub));
+	VH_TRY(e1, r1 = cp_ibe_gen_prv(prv, vh_tok[2], s));
+	mlen = vh_hex2bytes(vh_tok[3], msg, MAXB, NULL);
+	b.in = msg; b.len = mlen; b.id = vh_tok[2]; b.pub = pub; b.prv = prv;
+	run_call(call_ibe_enc, &b, &r, cap, 0);
+	vh_begin("ibe_enc");
+	vh_int("hdr", (long)hdr); vh_int("mdl", RLC_MD_LEN); vh_bytes("m", msg, mlen); vh_int("gen", r0 | r1 | e0 | e1);
+	res_out(&r, cap);
+	vh_end();
+	if (r.ret == RLC_OK && r.olen <= MAXB) {
+		size_t lens[4]; int j;
+		clen = r.olen; memcpy(ct, r.out, clen);
+		lens[0] = clen; lens[1] = hdr; lens[2] = hdr - 1; lens[3] = 0;
+		for (j = 0; j < 4; j++) {
+			b.in = ct; b.len = lens[j];
+			run_call(call_ibe_dec, &b, &r, MAXB, j > 0);
+			vh_begin("ibe_dec");
+			vh_int("hdr", (long)hdr); vh_int("mdl", RLC_MD_LEN); vh_int("honest", j == 0); vh_bytes("m0", msg, j == 0 ? mlen : 0);
+			vh_int("clen", (long)lens[j]);
+			res_out(&r, MAXB);
+			vh_end();
+		}
+	}
+	bn_free(s); g1_free(pub); g2_free(prv);
+}
+
+static void do_bgn(void) {
+	bgn_t pub, prv; g1_t c[2], d[2]; g2_t f[2]; gt_t g[4];
+	dig_t m1 = (dig_t)atol(vh_tok[2]), m2 = (dig_t)atol(vh_tok[3]), o[6] = { 0 };
+	int e[12], r[12], i;
+	bgn_null(pub); bgn_null(prv); bgn_new(pub); bgn_new(prv);
+	for (i = 0; i < 2; i++) { g1_null(c[i]); g1_new(c[i]); g1_null(d[i]); g1_new(d[i]); g2_null(f[i]); g2_new(f[i]); }
+	for (i = 0; i < 4; i++) { gt_null(g[i]); gt_new(g[i]); }
+	for (i = 0; i < 12; i++) { e[i] = 0; r[i] = 0; }
+	reseed(vh_tok[1]);
+	VH_TRY(e[0], r[0] = cp_bgn_gen(pub, prv));
+	VH_TRY(e[1], r[1] = cp_bgn_enc1(c, m1, pub));
+	VH_TRY(e[2], r[2] = cp_bgn_dec1(&o[0], c, prv));
+	VH_TRY(e[3], r[3] = cp_bgn_enc2(f, m2, pub));
+	VH_TRY(e[4], r[4] = cp_bgn_dec2(&o[1], f, prv));
+	VH_TRY(e[5], r[5] = cp_bgn_enc1(d, m2, pub));
+	g1_add(d[0], d[0], c[0]); g1_add(d[1], d[1], c[1]);             /* sum in G1 (combination: input construction) */
+	g1_norm(d[0], d[0]); g1_norm(d[1], d[1]);
+	VH_TRY(e[6], r[6] = cp_bgn_dec1(&o[2], d, prv));
+	VH_TRY(e[7], r[7] = cp_bgn_mul(g, c, f));
+	VH_TRY(e[8], r[8] = cp_bgn_dec(&o[3], g, prv));
+	VH_TRY(e[9], r[9] = cp_bgn_add(g, g, g));
+	VH_TRY(e[10], r[10] = cp_bgn_dec(&o[4], g, prv));
+	vh_begin("bgn");
+	vh_int("m1", (long)m1); vh_int("m2", (long)m2);
+	vh_int("d1", (long)o[0]); vh_int("d2", (long)o[1]); vh_int("dsum", (long)o[2]); vh_int("dmul", (long)o[3]); vh_int("dadd", (long)o[4]);
+	{ int rr = 0, ee = 0; for (i = 0; i < 11; i++) { rr |= r[i]; ee |= e[i]; } vh_int("ret", rr); vh_int("err", ee); }
+	vh_int("code", vh_code());
+	vh_end();
+	bgn_free(pub); bgn_free(prv);
+}
+
+/* replace a helper response element: g = another member of GT | u = the unit | z = zero (not a member) */
+static void tamper(gt_t x, char kind) {
+	gt_t t; gt_null(t); gt_new(t);
+	if (kind == 'g') { gt_get_gen(t); gt_mul(x, x, t); }
+	else if (kind == 'u') { if (gt_is_unity(x)) { gt_get_gen(x); } else gt_set_unity(x); }
+	else gt_zero(x);
+	gt_free(t);
+}
+static void do_pdel(void) {
+	const char *pr = vh_tok[1]; int tj = atoi(vh_tok[3]); char kind = vh_tok[4][0];
+	bn_t c, rr[3]; g1_t p, u1[2], v1[3]; g2_t q, u2[2], v2[4], w2[4]; gt_t e[2], r, g[4], ref;
+	int i, er[5] = { 0 }, rt[5] = { 0 }, ver = -1, prv = (pr[2] == 'p' && pr[3] == 'r') , lv = (pr[0] == 'l'), ng;
+	bn_null(c); bn_new(c); g1_null(p); g1_new(p); g2_null(q); g2_new(q); gt_null(r); gt_new(r); gt_null(ref); gt_new(ref);
+	for (i = 0; i < 3; i++) { bn_null(rr[i]); bn_new(rr[i]); g1_null(v1[i]); g1_new(v1[i]); }
+	for (i = 0; i < 2; i++) { g1_null(u1[i]); g1_new(u1[i]); g2_null(u2[i]); g2_new(u2[i]); gt_null(e[i]); gt_new(e[i]); }
+	for (i = 0; i < 4; i++) { g2_null(v2[i]); g2_new(v2[i]); g2_null(w2[i]); g2_new(w2[i]); gt_null(g[i]); gt_new(g[i]); }
+	reseed(vh_tok[2]);
+	g1_rand(p); g2_rand(q);
+	if (!prv && !lv) {
+		VH_TRY(er[0], rt[0] = cp_pdpub_gen(c, rr[0], u1[0], u2[0], v2[0], e[0]));
+		VH_TRY(er[1], rt[1] = cp_pdpub_ask(v1[0], w2[0], p, q, c, rr[0], u1[0], u2[0], v2[0]));
+		VH_TRY(er[2], rt[2] = cp_pdpub_ans(g, p, q, v1[0], v2[0], w2[0]));
+		ng = 3;
+	} else if (!prv && lv) {
+		VH_TRY(er[0], rt[0] = cp_lvpub_gen(rr[0], u1[0], u2[0], v2[0], e[0]));
+		VH_TRY(er[1], rt[1] = cp_lvpub_ask(c, v1[0], w2[0], p, q, rr[0], u1[0], u2[0], v2[0]));
+		VH_TRY(er[2], rt[2] = cp_lvpub_ans(g, p, q, v1[0], v2[0], w2[0]));
+		ng = 2;
+	} else if (prv && !lv) {
+		VH_TRY(er[0], rt[0] = cp_pdprv_gen(c, rr, u1, u2, v2, e));
+		VH_TRY(er[1], rt[1] = cp_pdprv_ask(v1, w2, p, q, c, rr, u1, u2, v2));
+		VH_TRY(er[2], rt[2] = cp_pdprv_ans(g, v1, w2));
+		ng = 4;
+	} else {
+		VH_TRY(er[0], rt[0] = cp_lvprv_gen(c, rr, u1, u2, v2, e));
+		VH_TRY(er[1], rt[1] = cp_lvprv_ask(v1, w2, p, q, c, rr, u1, u2, v2));
+		VH_TRY(er[2], rt[2] = cp_lvprv_ans(g, v1, w2));
+		ng = 3;
+	}
+	if (tj >= 0 && tj < ng) tamper(g[tj], kind);
+	gt_set_unity(r);
+	if (!prv && !lv) VH_TRY(er[3], ver = cp_pdpub_ver(r, g, c, e[0]));
+	else if (!prv && lv) VH_TRY(er[3], ver = cp_lvpub_ver(r, g, c, e[0]));
+	else if (prv && !lv) VH_TRY(er[3], ver = cp_pdprv_ver(r, g, c, e));
+	else VH_TRY(er[3], ver = cp_lvprv_ver(r, g, c, e));
+	pc_map(ref, p, q);
+	vh_begin("pdel");
+	vh_str("proto", pr); vh_int("tamper", (tj >= 0 && tj < ng) ? tj : -1); vh_str("kind", vh_tok[4]); vh_int("ng", ng);
+	vh_int("ver", ver); vh_int("same", gt_cmp(r, ref) == RLC_EQ); vh_int("unity", gt_is_unity(r)); vh_int("refunity", gt_is_unity(ref));
+	vh_bn("c", c);
+	vh_int("ret", rt[0] | rt[1] | rt[2]); vh_int("err", er[0] | er[1] | er[2] | er[3]); vh_int("code", vh_code());
+	vh_end();
+}
+
+static int parse_set(char *tok, bn_t *a) {
+	int n = 0; char *p;
+	if (!strcmp(tok, "-")) return 0;
+	for (p = strtok(tok, ","); p && n < PSI_MAX; p = strtok(NULL, ",")) vh_bn_set(a[n++], p);
+	return n;
+}
+static void do_psi(void) {
+	const char *kind = vh_tok[1]; int m, n, e[4] = { 0 }, r[4] = { 0 }; size_t len = 0;
+	char xs[512], ys[512];
+	snprintf(xs, sizeof(xs), "%s", vh_tok[3]); snprintf(ys, sizeof(ys), "%s", vh_tok[4]);
+	reseed(vh_tok[2]);
+	m = parse_set(xs, PXs); n = parse_set(ys, PYs);
+	if (!strcmp(kind, "rsa")) {
+		VH_TRY(e[0], r[0] = cp_rsapsi_gen(PG, PN, RLC_BN_BITS));
+		VH_TRY(e[1], r[1] = cp_rsapsi_ask(PQ, PR, PA, PG, PN, PXs, m));
+		VH_TRY(e[2], r[2] = cp_rsapsi_ans(PV, PW, PQ, PG, PN, PYs, n));
+		VH_TRY(e[3], r[3] = cp_rsapsi_int(PZ, &len, PR, PA, PN, PXs, m, PV, PW, n));
+	} else if (!strcmp(kind, "shi")) {
+		VH_TRY(e[0], r[0] = cp_shipsi_gen(PG, PCRT, RLC_BN_BITS));
+		VH_TRY(e[1], r[1] = cp_shipsi_ask(PQ, PR, PA, PG, PCRT->n, PXs, m));
+		VH_TRY(e[2], r[2] = cp_shipsi_ans(PV, PW[0], PQ, PG, PCRT, PYs, n));
+		VH_TRY(e[3], r[3] = cp_shipsi_int(PZ, &len, PR, PA, PCRT->n, PXs, m, PV, PW[0], n));
+	} else {
+		VH_TRY(e[0], r[0] = cp_pbpsi_gen(PQ, PSS, PS, m));
+		VH_TRY(e[1], r[1] = cp_pbpsi_ask(PD, PR, PXs, PS, m));
+		VH_TRY(e[2], r[2] = cp_pbpsi_ans(PT, PU, PSS, PD[0], PYs, n));
+		VH_TRY(e[3], r[3] = cp_pbpsi_int(PZ, &len, PD, PXs, m, PT, PU, n));
+	}
+	vh_begin("psi");
+	vh_str("kind", kind);
+	bn_arr("x", PXs, m); bn_arr("y", PYs, n); bn_arr("z", PZ, len <= PSI_MAX * PSI_MAX ? (int)len : 0); vh_int("len", (long)len);
+	vh_int("ret", r[0] | r[1] | r[2] | r[3]); vh_int("err", e[0] | e[1] | e[2] | e[3]); vh_int("code", vh_code());
+	vh_end();
+}
+
+#if defined(WITH_MPC)
+/* pairing triples: c0 c1 = e(a0 + a1, b0 + b1); a shared pairing computed with the triple equals e(P, Q) */
+static void do_pct(void) {
+	pt_t t[2]; g1_t p[2], d[2], ps; g2_t q[2], ee[2], qs; gt_t r[2], f, ref; int i, er[6] = { 0 }, tri_ok, map_ok;
+	for (i = 0; i < 2; i++) {
+		pt_null(t[i]); pt_new(t[i]); g1_null(p[i]); g1_new(p[i]); g1_null(d[i]); g1_new(d[i]);
+		g2_null(q[i]); g2_new(q[i]); g2_null(ee[i]); g2_new(ee[i]); gt_null(r[i]); gt_new(r[i]);
+	}
+	g1_null(ps); g1_new(ps); g2_null(qs); g2_new(qs); gt_null(f); gt_new(f); gt_null(ref); gt_new(ref);
+	reseed(vh_tok[1]);
+	VH_TRY(er[0], pc_map_tri(t));
+	g1_add(ps, t[0]->a, t[1]->a); g1_norm(ps, ps); g2_add(qs, t[0]->b, t[1]->b); g2_norm(qs, qs);
+	gt_mul(f, t[0]->c, t[1]->c); pc_map(ref, ps, qs);
+	tri_ok = gt_cmp(f, ref) == RLC_EQ;
+	for (i = 0; i < 2; i++) { g1_rand(p[i]); g2_rand(q[i]); }
+	g1_add(ps, p[0], p[1]); g1_norm(ps, ps); g2_add(qs, q[0], q[1]); g2_norm(qs, qs);
+	pc_map(ref, ps, qs);
+	for (i = 0; i < 2; i++) VH_TRY(er[1 + i], pc_map_lcl(d[i], ee[i], p[i], q[i], t[i]));
+	VH_TRY(er[3], pc_map_bct(d, ee));
+	for (i = 0; i < 2; i++) VH_TRY(er[4 + i], pc_map_mpc(r[i], d[i], ee[i], t[i], i));
+	gt_mul(f, r[0], r[1]);
+	map_ok = gt_cmp(f, ref) == RLC_EQ;
+	vh_begin("pct");
+	vh_int("tri", tri_ok); vh_int("map", map_ok); vh_int("bct", g1_cmp(d[0], d[1]) == RLC_EQ && g2_cmp(ee[0], ee[1]) == RLC_EQ);
+	vh_int("refunity", gt_is_unity(ref));
+	vh_int("err", er[0] | er[1] | er[2] | er[3] | er[4] | er[5]); vh_int("code", vh_code());
+	vh_end();
+}
+#endif
+
+static int pc_dispatch(const char *op) {
+	if (!pc_ok) { if (!strcmp(op, "sokaka") || !strcmp(op, "ibe") || !strcmp(op, "bgn") || !strcmp(op, "pdel") || !strcmp(op, "psi") || !strcmp(op, "pct")) { vh_begin("NOPAIRING"); vh_end(); return 1; } return 0; }
+	if (strcmp(op, "sokaka") && strcmp(op, "ibe") && strcmp(op, "bgn") && strcmp(op, "pdel") && strcmp(op, "psi") && strcmp(op, "pct")) return 0;
+	if (cur_id != -2) { pc_param_set_any(); err_get_code(); cur_id = -2; }      /* the elliptic-curve cases may have selected another curve */
+	if (!strcmp(op, "sokaka")) do_sokaka();
+	else if (!strcmp(op, "ibe")) do_ibe();
+	else if (!strcmp(op, "bgn")) do_bgn();
+	else if (!strcmp(op, "pdel")) do_pdel();
+	else if (!strcmp(op, "psi")) do_psi();
+#if defined(WITH_MPC)
+	else if (!strcmp(op, "pct")) do_pct();
+#endif
+	else return 0;
+	return 1;
+}
+#else
 static void pc_setup(void) { }
 static int pc_dispatch(const char *op) { (void)op; return 0; }
+#endif
